@@ -202,9 +202,9 @@ func (b *BackoffObj) Invoke(ex *Exec, fr *frame, method string, args []Value) Va
 }
 
 type CtxObj struct {
-	parent   Value // Iface
-	deadline *Term // 64-bit logical instant, nil if none
-	id       int
+	parent    Value // Iface
+	deadline  *Term // 64-bit logical instant, nil if none
+	id        int
 	cancelled bool
 }
 
